@@ -784,6 +784,12 @@ func isNoValueReturn(r *ssa.Return) bool {
 
 // errOperandOK judges the error operand of return r for a failure of e.
 func (c *Ctx) errOperandOK(fn *ssa.Function, r *ssa.Return, ev, e ssa.Value, region map[int]bool, tested bool) bool {
+	return c.errOperandOKSeen(fn, r, ev, e, region, tested, map[ssa.Value]bool{})
+}
+
+// errOperandOKSeen: seen holds the phis already under judgement (a loop-carried
+// error variable is a cycle of phis; an edge back into it adds nothing).
+func (c *Ctx) errOperandOKSeen(fn *ssa.Function, r *ssa.Return, ev, e ssa.Value, region map[int]bool, tested bool, seen map[ssa.Value]bool) bool {
 	if derivesFromErr(ev, e, 0) && !isPhi(ev) {
 		return true
 	}
@@ -791,12 +797,16 @@ func (c *Ctx) errOperandOK(fn *ssa.Function, r *ssa.Return, ev, e ssa.Value, reg
 		return true
 	}
 	if ph, ok := ev.(*ssa.Phi); ok {
+		if seen[ph] {
+			return true
+		}
+		seen[ph] = true
 		// only the incoming edges that lie in the failure region matter
 		for k, pred := range ph.Block().Preds {
 			if !region[pred.Index] {
 				continue
 			}
-			if !c.errOperandOK(fn, r, ph.Edges[k], e, region, tested) {
+			if !c.errOperandOKSeen(fn, r, ph.Edges[k], e, region, tested, seen) {
 				return false
 			}
 		}
